@@ -157,6 +157,10 @@ var commitCmd = &cobra.Command{
 				return err
 			}
 		} else {
+			// other branches exist but HEAD names one without a commit: there is nothing to compare with
+			if client.Head.Commit == nil {
+				return fmt.Errorf("fatal: your current branch '%s' does not have any commits yet", client.Head.Reference)
+			}
 			// compare last commit with index
 			isDiff, err := isCommitNecessary(client.RootGoitPath, client.Idx, client.Head.Commit)
 			if err != nil {
